@@ -34,7 +34,7 @@ def check(repo, res, tier):
     res.rule("R-ORDER", "loss object and ABC derive parameter order from the same helpers with the same arguments")
     res.s_clauses = ["S1 R-ACCEPT", "S2 R-SLOT", "S3 R-SCHED", "S4 R-ORDER"]
     res.n_clauses = ["weights finite and positive (division by a kernel density: numerics)",
-                     "stored distance equals cost recomputed at the particle (needs determinism of the ODE solve, C02)",
+                     "stored distance equals cost recomputed at the particle: only the structural part (the slot written is the cost returned; each cost call installs its own theta) is decided, determinism of the ODE solve is C02",
                      "that a quantile of values all below the tolerance is itself below it (property of np.quantile)"]
     abc = repo.cls(M.M_ABC, "ABC")
     pg = abc.methods.get("_perform_generation")
@@ -48,6 +48,13 @@ def check(repo, res, tier):
     _slots(res, pg, gps)
     _schedule(repo, res, abc)
     _order(repo, res, abc)
+    # the stored distance is the cost *at that particle*: every cost evaluation installs its own parameters before
+    # integrating at the observation times (shared with C06)
+    from . import C06
+    res.rule("R-ROWMATCH", "cost(theta) integrates the model at theta: parameters installed on every evaluation, rows = observations")
+    C06._rows(repo, res, repo.cls(M.M_LOSS, "BaseLoss"))
+    from ..rules.sweep import gate_call_arity
+    gate_call_arity(repo, res, {"pygom/approximate_bayesian_computation/approximate_bayesian_computation.py"})
 
 
 def _accept(res, f, inline):
